@@ -1,6 +1,6 @@
 (** C15 -- fallible operations fail by value, not by panic or hang.
-    Theorem-only file: each theorem is closed by [exact] of a lemma of Proofs/C15.v and followed by
-    [Print Assumptions].
+    Theorem-only file (written by tools/c15_mkprops.py): each theorem is closed by [exact] of a lemma of
+    Proofs/C15.v, Proofs/C15Owners.v or Proofs/C15Strftime.v and followed by [Print Assumptions].
 
     C15 is cross-cutting: its model is the union of all properties' models (Model/C15.v) and its
     theorems are corollaries of the owners' theorems (Props/C01.v ... Props/C19.v), restated in the one
@@ -9,46 +9,52 @@
         for ALL arguments of the Rust argument types, the modelled entry point RETURNS
         ([returns r]: r is neither [Panic] -- an arithmetic overflow, a slice off a character boundary,
         an index out of bounds, an unwrap of None -- nor [OutOfFuel] -- a loop that did not end within
-        its proved bound), and a returned value is a VALID value of its type.
+        its proved bound), and a returned value is a VALID value of its type (validity in the owner's
+        vocabulary: [date_valid] = exists y o, repr y o d; Proofs.C02.valid_ndt; Proofs.C03.nvalid / vdate;
+        Proofs.C04.dtz_ok / ndt_ok / off_ok; Proofs.C06.valid; [time_valid] = Proofs.Time.tvalid).
 
+    plus one dedicated proof (Proofs/C15Strftime.v): the slice-safety invariant of the format-string
+    iterator.  Theorems named *_partial exclude a stated sub-domain (the comment in front says which).
     Which inventory entries (gen/C15_inventory.json, printed in the evidence) have such a theorem and
-    which are covered by correspondence + judge only is recorded per entry in that table and summarised
-    in trusted_base.json ("assumptions_C15"). *)
+    which are covered by correspondence + judge only is listed at the end of this file. *)
 From Coq Require Import ZArith List Bool String.
-From V Require Import Base.Int Base.IO Base.Utf8 Proofs.C15.
-From V Require Model.Date Model.Time Model.DateTime Model.Rfc3339 Model.Strftime Model.C15 Gen.Strftime.
+From V Require Import Base.Int Base.IO Spec.Gregorian Model.Strftime Proofs.C15 Proofs.C15Owners Proofs.C15Strftime.
+From V Require Model.Date Model.Time Model.DateTime Model.TimeDelta Model.DateExtra Model.Parsed Model.Parse Model.Rfc3339 Model.C02 Model.C15 Model.C19 Gen.Strftime.
 Import ListNotations.
 Open Scope Z_scope.
 
-(** ** NaiveDate constructors: every i32 / u32 argument; never a trap; the date returned is valid *)
-Theorem C15_from_ymd_opt_total : forall y m dd, in_i32 y = true -> in_u32 m = true -> in_u32 dd = true ->
+
+(** ** NaiveDate constructors (C01): every i32 / u32 argument; never a trap; the date returned is valid *)
+Theorem C15_from_ymd_opt_total : forall y m dd, 
+  in_i32 y = true -> in_u32 m = true -> in_u32 dd = true ->
   returns (Model.Date.from_ymd_opt y m dd) /\
   forall d, Model.Date.from_ymd_opt y m dd = Val (Some d) -> date_valid d.
 Proof. exact from_ymd_opt_total. Qed.
 Print Assumptions C15_from_ymd_opt_total.
-Theorem C15_from_yo_opt_total : forall y o, in_i32 y = true -> in_u32 o = true ->
+Theorem C15_from_yo_opt_total : forall y o, 
+  in_i32 y = true -> in_u32 o = true ->
   returns (Model.Date.from_yo_opt y o) /\ forall d, Model.Date.from_yo_opt y o = Val (Some d) -> date_valid d.
 Proof. exact from_yo_opt_total. Qed.
 Print Assumptions C15_from_yo_opt_total.
 (* includes year = i32::MIN / i32::MAX (the year - 1 / year + 1 spill repaired by f8bab14) *)
-Theorem C15_from_isoywd_opt_total : forall y w wd, in_i32 y = true -> in_u32 w = true -> 0 <= wd <= 6 ->
+Theorem C15_from_isoywd_opt_total : forall y w wd, 
+  in_i32 y = true -> in_u32 w = true -> 0 <= wd <= 6 ->
   returns (Model.Date.from_isoywd_opt y w wd) /\ forall d, Model.Date.from_isoywd_opt y w wd = Val (Some d) -> date_valid d.
 Proof. exact from_isoywd_opt_total. Qed.
 Print Assumptions C15_from_isoywd_opt_total.
-Theorem C15_from_num_days_from_ce_opt_total : forall n, in_i32 n = true ->
-  returns (Model.Date.from_num_days_from_ce_opt n) /\
-  forall d, Model.Date.from_num_days_from_ce_opt n = Val (Some d) -> date_valid d.
+Theorem C15_from_num_days_from_ce_opt_total : forall n, 
+  in_i32 n = true ->
+  returns (Model.Date.from_num_days_from_ce_opt n) /\ forall d, Model.Date.from_num_days_from_ce_opt n = Val (Some d) -> date_valid d.
 Proof. exact from_num_days_from_ce_opt_total. Qed.
 Print Assumptions C15_from_num_days_from_ce_opt_total.
-Theorem C15_succ_pred_total : forall d, date_valid d ->
-  returns (Model.Date.succ_opt d) /\ returns (Model.Date.pred_opt d) /\
-  (forall x, Model.Date.succ_opt d = Val (Some x) -> date_valid x) /\
-  (forall x, Model.Date.pred_opt d = Val (Some x) -> date_valid x).
+Theorem C15_succ_pred_total : forall d, 
+  date_valid d -> returns (Model.Date.succ_opt d) /\ returns (Model.Date.pred_opt d) /\
+  (forall x, Model.Date.succ_opt d = Val (Some x) -> date_valid x) /\ (forall x, Model.Date.pred_opt d = Val (Some x) -> date_valid x).
 Proof. exact succ_pred_total. Qed.
 Print Assumptions C15_succ_pred_total.
 
-(** ** NaiveTime constructors: every u32 argument (u32::MAX in every position included) *)
-Theorem C15_time_ctor_total : forall h m s x,
+(** ** NaiveTime constructors and field replacement (C07): every u32 argument (u32::MAX in every position included) *)
+Theorem C15_time_ctor_total : forall h m s x, 
   in_u32 h = true -> in_u32 m = true -> in_u32 s = true -> in_u32 x = true ->
   (returns (Model.Time.from_hms_opt h m s) /\ forall t, Model.Time.from_hms_opt h m s = Val (Some t) -> time_valid t) /\
   (returns (Model.Time.from_hms_milli_opt h m s x) /\ forall t, Model.Time.from_hms_milli_opt h m s x = Val (Some t) -> time_valid t) /\
@@ -56,9 +62,9 @@ Theorem C15_time_ctor_total : forall h m s x,
   (returns (Model.Time.from_hms_nano_opt h m s x) /\ forall t, Model.Time.from_hms_nano_opt h m s x = Val (Some t) -> time_valid t).
 Proof. exact time_ctor_total. Qed.
 Print Assumptions C15_time_ctor_total.
-
-(** ** NaiveDate::and_hms_opt / _milli / _micro / _nano (ops c15.d.hms, hmsm, hmsu, hmsn) *)
-Theorem C15_and_hms_total : forall d h m s x, date_valid d ->
+(* NaiveDate::and_hms_opt / _milli / _micro / _nano (ops c15.d.hms, hmsm, hmsu, hmsn) *)
+Theorem C15_and_hms_total : forall d h m s x, 
+  date_valid d ->
   in_u32 h = true -> in_u32 m = true -> in_u32 s = true -> in_u32 x = true ->
   (returns (Model.C15.d_and_hms_opt d h m s) /\ forall a, Model.C15.d_and_hms_opt d h m s = Val (Some a) -> ndt_valid a) /\
   (returns (Model.C15.d_and_hms_milli_opt d h m s x) /\ forall a, Model.C15.d_and_hms_milli_opt d h m s x = Val (Some a) -> ndt_valid a) /\
@@ -66,32 +72,588 @@ Theorem C15_and_hms_total : forall d h m s x, date_valid d ->
   (returns (Model.C15.d_and_hms_nano_opt d h m s x) /\ forall a, Model.C15.d_and_hms_nano_opt d h m s x = Val (Some a) -> ndt_valid a).
 Proof. exact and_hms_all_total. Qed.
 Print Assumptions C15_and_hms_total.
+(* impl Timelike for NaiveDateTime (op c15.ndt.witht) *)
+Theorem C15_ndt_with_time_total : forall field a x, 
+  Proofs.Time.tvalid (Model.DateTime.nd_time a) -> 7 <= field <= 10 -> in_u32 x = true ->
+  returns (Model.C15.ndt_with_time_field field a x).
+Proof. exact ndt_with_time_total. Qed.
+Print Assumptions C15_ndt_with_time_total.
 
-(** ** RFC 3339 reader: every well-formed UTF-8 string *)
-Theorem C15_parse_from_rfc3339_total : forall s, utf8_valid s = true -> returns (Model.Rfc3339.parse_from_rfc3339 s).
+(** ** TimeDelta (C06): every valid duration, every i32 factor / divisor, every i64 count *)
+(* new / try_weeks .. try_seconds are plain functions in the model (no trapping step): a returned duration is in range *)
+Theorem C15_td_ctor_valid : forall s n, 
+  in_i64 s = true -> in_u32 n = true ->
+  (forall d, Model.TimeDelta.td_new s n = Some d -> Proofs.C06.valid d) /\
+  (forall d, Model.TimeDelta.try_weeks s = Some d -> Proofs.C06.valid d) /\
+  (forall d, Model.TimeDelta.try_days s = Some d -> Proofs.C06.valid d) /\
+  (forall d, Model.TimeDelta.try_hours s = Some d -> Proofs.C06.valid d) /\
+  (forall d, Model.TimeDelta.try_minutes s = Some d -> Proofs.C06.valid d) /\
+  (forall d, Model.TimeDelta.try_seconds s = Some d -> Proofs.C06.valid d).
+Proof. exact td_ctor_valid. Qed.
+Print Assumptions C15_td_ctor_valid.
+Theorem C15_td_millis_total : forall n, 
+  in_i64 n = true ->
+  returns (Model.TimeDelta.try_milliseconds n) /\ forall d, Model.TimeDelta.try_milliseconds n = Val (Some d) -> Proofs.C06.valid d.
+Proof. exact td_millis_total. Qed.
+Print Assumptions C15_td_millis_total.
+Theorem C15_td_micros_nanos_total : forall n, 
+  in_i64 n = true ->
+  (returns (Model.TimeDelta.microseconds n) /\ forall d, Model.TimeDelta.microseconds n = Val d -> Proofs.C06.valid d) /\
+  (returns (Model.TimeDelta.nanoseconds n) /\ forall d, Model.TimeDelta.nanoseconds n = Val d -> Proofs.C06.valid d).
+Proof. exact td_micros_nanos_total. Qed.
+Print Assumptions C15_td_micros_nanos_total.
+Theorem C15_td_add_total : forall a b, 
+  Proofs.C06.valid a -> Proofs.C06.valid b ->
+  returns (Model.TimeDelta.td_checked_add a b) /\ forall d, Model.TimeDelta.td_checked_add a b = Val (Some d) -> Proofs.C06.valid d.
+Proof. exact td_add_total. Qed.
+Print Assumptions C15_td_add_total.
+Theorem C15_td_sub_total : forall a b, 
+  Proofs.C06.valid a -> Proofs.C06.valid b ->
+  returns (Model.TimeDelta.td_checked_sub a b) /\ forall d, Model.TimeDelta.td_checked_sub a b = Val (Some d) -> Proofs.C06.valid d.
+Proof. exact td_sub_total. Qed.
+Print Assumptions C15_td_sub_total.
+(* MAX.checked_mul(2) is refused (range check after the multiplication, 9a6fec9) *)
+Theorem C15_td_mul_total : forall a k, 
+  Proofs.C06.valid a -> in_i32 k = true ->
+  returns (Model.TimeDelta.td_checked_mul a k) /\ forall d, Model.TimeDelta.td_checked_mul a k = Val (Some d) -> Proofs.C06.valid d.
+Proof. exact td_mul_total. Qed.
+Print Assumptions C15_td_mul_total.
+(* a zero divisor is refused by value before the division *)
+Theorem C15_td_div_total : forall a k, 
+  Proofs.C06.valid a -> in_i32 k = true -> k <> 0 ->
+  returns (Model.TimeDelta.td_checked_div a k) /\ forall d, Model.TimeDelta.td_checked_div a k = Val (Some d) -> Proofs.C06.valid d.
+Proof. exact td_div_total. Qed.
+Print Assumptions C15_td_div_total.
+Theorem C15_td_display_total : forall a, 
+  Proofs.C06.valid a -> returns (Model.TimeDelta.td_display a).
+Proof. exact td_display_total. Qed.
+Print Assumptions C15_td_display_total.
+
+(** ** Unix timestamps (C02): every i64 count, every u32 nanosecond field (i64::MIN / i64::MAX micros included) *)
+Theorem C15_from_timestamp_total : forall secs nsecs, 
+  in_i64 secs = true -> in_u32 nsecs = true ->
+  returns (Model.DateTime.dt_from_timestamp secs nsecs) /\
+  forall a, Model.DateTime.dt_from_timestamp secs nsecs = Val (Some a) -> Proofs.C02.valid_ndt a.
+Proof. exact from_timestamp_total. Qed.
+Print Assumptions C15_from_timestamp_total.
+Theorem C15_from_timestamp_millis_total : forall ms, 
+  in_i64 ms = true ->
+  returns (Model.DateTime.dt_from_timestamp_millis ms) /\
+  forall a, Model.DateTime.dt_from_timestamp_millis ms = Val (Some a) -> Proofs.C02.valid_ndt a.
+Proof. exact from_timestamp_millis_total. Qed.
+Print Assumptions C15_from_timestamp_millis_total.
+Theorem C15_from_timestamp_micros_total : forall us, 
+  in_i64 us = true ->
+  returns (Model.DateTime.dt_from_timestamp_micros us) /\
+  forall a, Model.DateTime.dt_from_timestamp_micros us = Val (Some a) -> Proofs.C02.valid_ndt a.
+Proof. exact from_timestamp_micros_total. Qed.
+Print Assumptions C15_from_timestamp_micros_total.
+Theorem C15_from_timestamp_nanos_total : forall ns, 
+  in_i64 ns = true ->
+  returns (Model.DateTime.dt_from_timestamp_nanos ns) /\
+  forall a, Model.DateTime.dt_from_timestamp_nanos ns = Val a -> Proofs.C02.valid_ndt a.
+Proof. exact from_timestamp_nanos_total. Qed.
+Print Assumptions C15_from_timestamp_nanos_total.
+(* TimeZone::timestamp_opt / timestamp_millis_opt / timestamp_micros, fixed offset or Utc *)
+Theorem C15_tz_timestamp_total : forall off secs nsecs, 
+  in_i64 secs = true -> in_u32 nsecs = true ->
+  returns (Model.DateTime.tz_timestamp_opt off secs nsecs) /\
+  returns (Model.C02.tz_timestamp_millis_opt off secs) /\ returns (Model.C02.tz_timestamp_micros off secs).
+Proof. exact tz_timestamp_total. Qed.
+Print Assumptions C15_tz_timestamp_total.
+(* PARTIAL: non-leap values (C02 covers second-59 leap values separately; a leap fraction on another second: correspondence + judge) *)
+Theorem C15_timestamp_nanos_opt_total_partial : forall a, 
+  Proofs.C02.valid_ndt a -> Proofs.C02.nonleap a ->
+  returns (Model.DateTime.dt_timestamp_nanos_opt a).
+Proof. exact timestamp_nanos_opt_total. Qed.
+Print Assumptions C15_timestamp_nanos_opt_total_partial.
+
+(** ** Elapsed-time arithmetic (C03).  PARTIAL where named so: C03's exactness theorems are over non-leap values (its tvalid: frac < 10^9); leap-second operands are C07's (C07_ndt_leap_add_partial) and otherwise correspondence + judge *)
+Theorem C15_ndt_signed_total_partial : forall a d, 
+  Proofs.C03.nvalid a -> Proofs.C06.valid d ->
+  (returns (Model.DateTime.ndt_checked_add_signed a d) /\ forall b, Model.DateTime.ndt_checked_add_signed a d = Val (Some b) -> Proofs.C03.nvalid b) /\
+  (returns (Model.DateTime.ndt_checked_sub_signed a d) /\ forall b, Model.DateTime.ndt_checked_sub_signed a d = Val (Some b) -> Proofs.C03.nvalid b).
+Proof. exact ndt_signed_total. Qed.
+Print Assumptions C15_ndt_signed_total_partial.
+(* Days::new(u64::MAX) included *)
+Theorem C15_date_days_total : forall d n, 
+  Proofs.C03.vdate d -> in_u64 n = true ->
+  (returns (Model.Date.checked_add_days d n) /\ forall x, Model.Date.checked_add_days d n = Val (Some x) -> Proofs.C03.vdate x) /\
+  (returns (Model.Date.checked_sub_days d n) /\ forall x, Model.Date.checked_sub_days d n = Val (Some x) -> Proofs.C03.vdate x).
+Proof. exact date_days_total. Qed.
+Print Assumptions C15_date_days_total.
+(* TimeDelta::MIN / MAX included *)
+Theorem C15_date_signed_total : forall d x, 
+  Proofs.C03.vdate d -> Proofs.C06.valid x ->
+  (returns (Model.Date.checked_add_signed d x) /\ forall y, Model.Date.checked_add_signed d x = Val (Some y) -> Proofs.C03.vdate y) /\
+  (returns (Model.Date.checked_sub_signed d x) /\ forall y, Model.Date.checked_sub_signed d x = Val (Some y) -> Proofs.C03.vdate y).
+Proof. exact date_signed_total. Qed.
+Print Assumptions C15_date_signed_total.
+Theorem C15_ndt_days_total_partial : forall a n, 
+  Proofs.C03.nvalid a -> in_u64 n = true ->
+  (returns (Model.DateTime.ndt_checked_add_days a n) /\ forall b, Model.DateTime.ndt_checked_add_days a n = Val (Some b) -> Proofs.C03.nvalid b) /\
+  (returns (Model.DateTime.ndt_checked_sub_days a n) /\ forall b, Model.DateTime.ndt_checked_sub_days a n = Val (Some b) -> Proofs.C03.nvalid b).
+Proof. exact ndt_days_total. Qed.
+Print Assumptions C15_ndt_days_total_partial.
+Theorem C15_dtz_signed_total_partial : forall u off d, 
+  Proofs.C03.nvalid u -> Proofs.C06.valid d ->
+  (returns (Model.DateTime.dz_checked_add_signed (Model.DateTime.mk_dtz u off) d) /\
+   forall z, Model.DateTime.dz_checked_add_signed (Model.DateTime.mk_dtz u off) d = Val (Some z) ->
+             Model.DateTime.dz_off z = off /\ Proofs.C03.nvalid (Model.DateTime.dz_utc z)) /\
+  (returns (Model.DateTime.dz_checked_sub_signed (Model.DateTime.mk_dtz u off) d) /\
+   forall z, Model.DateTime.dz_checked_sub_signed (Model.DateTime.mk_dtz u off) d = Val (Some z) ->
+             Model.DateTime.dz_off z = off /\ Proofs.C03.nvalid (Model.DateTime.dz_utc z)).
+Proof. exact dtz_signed_total. Qed.
+Print Assumptions C15_dtz_signed_total_partial.
+
+(** ** Zone-aware date-times (C04): fixed offsets and Utc *)
+(* east_opt is a plain function (no trapping step); west_opt negates: i32::MIN is refused before the negation *)
+Theorem C15_fixed_offset_ctor_total : forall s, 
+  in_i32 s = true ->
+  (forall off, Model.DateTime.east_opt s = Some off -> Proofs.C04.off_ok off) /\
+  returns (Model.DateTime.west_opt s) /\ (forall off, Model.DateTime.west_opt s = Val (Some off) -> Proofs.C04.off_ok off).
+Proof. exact fixed_offset_ctor_total. Qed.
+Print Assumptions C15_fixed_offset_ctor_total.
+(* TimeZone::from_local_datetime = NaiveDateTime::and_local_timezone (op c15.ndt.andtz): Single or None, never Ambiguous *)
+Theorem C15_from_local_datetime_total : forall off l, 
+  Proofs.C04.ndt_ok l -> Proofs.C04.off_ok off ->
+  returns (Model.DateTime.from_local_datetime off l) /\
+  (forall z, Model.DateTime.from_local_datetime off l = Val (Model.DateTime.MSingle z) -> Proofs.C04.dtz_ok z) /\
+  (forall x y, Model.DateTime.from_local_datetime off l <> Val (Model.DateTime.MAmbiguous x y)).
+Proof. exact from_local_datetime_total. Qed.
+Print Assumptions C15_from_local_datetime_total.
+(* the non-panicking wall-clock view the renderers and rounding use *)
+Theorem C15_overflowing_naive_local_total : forall a, 
+  Proofs.C04.dtz_ok a -> returns (Model.DateTime.overflowing_naive_local a).
+Proof. exact overflowing_naive_local_total. Qed.
+Print Assumptions C15_overflowing_naive_local_total.
+(* with the range filter of 6a10a33: a Single result is inside MIN_UTC..=MAX_UTC *)
+Theorem C15_with_time_total : forall a t, 
+  Proofs.C04.dtz_ok a -> Proofs.C04.time_ok t ->
+  returns (Model.DateTime.dz_with_time a t) /\
+  (forall z, Model.DateTime.dz_with_time a t = Val (Model.DateTime.MSingle z) -> Proofs.C04.dtz_ok z) /\
+  (forall x y, Model.DateTime.dz_with_time a t <> Val (Model.DateTime.MAmbiguous x y)).
+Proof. exact with_time_total. Qed.
+Print Assumptions C15_with_time_total.
+(* with_hour / with_minute / with_second / with_nanosecond of DateTime: any wall clock, headroom dates included *)
+Theorem C15_dtz_with_time_field_total : forall field a x, 
+  Proofs.C04.dtz_ok a -> 7 <= field <= 10 -> in_u32 x = true ->
+  returns (Model.DateTime.dz_with field a x) /\ forall z, Model.DateTime.dz_with field a x = Val (Some z) -> Proofs.C04.dtz_ok z.
+Proof. exact dtz_with_time_field_total. Qed.
+Print Assumptions C15_dtz_with_time_field_total.
+Theorem C15_with_ymd_and_hms_total : forall off y m d h mi s, 
+  Proofs.C04.off_ok off ->
+  in_i32 y = true -> in_u32 m = true -> in_u32 d = true -> in_u32 h = true -> in_u32 mi = true -> in_u32 s = true ->
+  returns (Model.DateTime.with_ymd_and_hms off y m d h mi s) /\
+  (forall z, Model.DateTime.with_ymd_and_hms off y m d h mi s = Val (Model.DateTime.MSingle z) -> Proofs.C04.dtz_ok z) /\
+  (forall a b, Model.DateTime.with_ymd_and_hms off y m d h mi s <> Val (Model.DateTime.MAmbiguous a b)).
+Proof. exact with_ymd_and_hms_total. Qed.
+Print Assumptions C15_with_ymd_and_hms_total.
+(* NaiveDateTime::checked_add_offset / checked_sub_offset (ops c15.ndt.addoff, c15.ndt.suboff) *)
+Theorem C15_ndt_offset_total : forall a off, 
+  Proofs.C04.ndt_ok a -> Proofs.C04.off_ok off ->
+  (returns (Model.DateTime.ndt_checked_add_offset a off) /\
+   forall b, Model.DateTime.ndt_checked_add_offset a off = Val (Some b) -> Proofs.C04.ndt_ok b) /\
+  (returns (Model.DateTime.ndt_checked_sub_offset a off) /\
+   forall b, Model.DateTime.ndt_checked_sub_offset a off = Val (Some b) -> Proofs.C04.ndt_ok b).
+Proof. exact ndt_offset_total. Qed.
+Print Assumptions C15_ndt_offset_total.
+(* PARTIAL: wall clock inside the NaiveDateTime range (gap: the two headroom dates; correspondence + judge there) *)
+Theorem C15_dtz_with_date_field_partial : forall field a x, 
+  Proofs.C04.dtz_ok a -> Proofs.C04.in_rng (Proofs.C04.wall a) = true ->
+  0 <= field <= 6 -> (if field =? 0 then in_i32 x else in_u32 x) = true ->
+  returns (Model.DateTime.dz_with field a x) /\ forall z, Model.DateTime.dz_with field a x = Val (Some z) -> Proofs.C04.dtz_ok z.
+Proof. exact dtz_with_date_field_partial. Qed.
+Print Assumptions C15_dtz_with_date_field_partial.
+(* PARTIAL: as above *)
+Theorem C15_dtz_days_partial : forall a n, 
+  Proofs.C04.dtz_ok a -> Proofs.C04.in_rng (Proofs.C04.wall a) = true -> in_u64 n = true ->
+  (returns (Model.DateTime.dz_checked_add_days a n) /\ forall z, Model.DateTime.dz_checked_add_days a n = Val (Some z) -> Proofs.C04.dtz_ok z) /\
+  (returns (Model.DateTime.dz_checked_sub_days a n) /\ forall z, Model.DateTime.dz_checked_sub_days a n = Val (Some z) -> Proofs.C04.dtz_ok z).
+Proof. exact dtz_days_partial. Qed.
+Print Assumptions C15_dtz_days_partial.
+(* PARTIAL: as above; Months::new(u32::MAX) included *)
+Theorem C15_dtz_months_partial : forall (add : bool) a m, 
+  Proofs.C04.dtz_ok a -> Proofs.C04.in_rng (Proofs.C04.wall a) = true -> in_u32 m = true ->
+  let step := if add then Model.DateTime.dz_checked_add_months a m else Model.DateTime.dz_checked_sub_months a m in
+  returns step /\ forall z, step = Val (Some z) -> Proofs.C04.dtz_ok z.
+Proof. exact dtz_months_partial. Qed.
+Print Assumptions C15_dtz_months_partial.
+
+(** ** Month stepping, date-field replacement, week helpers (C08): every date, every u32 / i32 argument *)
+Theorem C15_date_months_total : forall d n, 
+  date_valid d -> in_u32 n = true ->
+  returns (Model.Date.checked_add_months d n) /\ returns (Model.Date.checked_sub_months d n).
+Proof. exact date_months_total. Qed.
+Print Assumptions C15_date_months_total.
+(* with_month0 / day0 / ordinal0 (u32::MAX + 1 does not fit: checked_add) included *)
+Theorem C15_date_with_total : forall d x, 
+  date_valid d ->
+  (in_i32 x = true -> returns (Model.Date.with_year d x)) /\
+  (in_u32 x = true -> returns (Model.Date.with_month d x) /\ returns (Model.Date.with_month0 d x) /\
+                      returns (Model.Date.with_day d x) /\ returns (Model.Date.with_day0 d x) /\
+                      returns (Model.Date.with_ordinal d x) /\ returns (Model.Date.with_ordinal0 d x)).
+Proof. exact date_with_total. Qed.
+Print Assumptions C15_date_with_total.
+Theorem C15_week_total : forall d w, 
+  date_valid d -> 0 <= w <= 6 ->
+  returns (Model.DateExtra.week_checked_first_day (Model.DateExtra.d_week d w)) /\
+  returns (Model.DateExtra.week_checked_last_day (Model.DateExtra.d_week d w)) /\
+  returns (Model.DateExtra.week_checked_days (Model.DateExtra.d_week d w)).
+Proof. exact week_total. Qed.
+Print Assumptions C15_week_total.
+Theorem C15_from_weekday_of_month_opt_total : forall y m w n, 
+  in_i32 y = true -> in_u32 m = true -> 0 <= w <= 6 -> in_u8 n = true ->
+  returns (Model.DateExtra.from_weekday_of_month_opt y m w n).
+Proof. exact from_weekday_of_month_opt_total. Qed.
+Print Assumptions C15_from_weekday_of_month_opt_total.
+Theorem C15_years_since_total : forall d1 d0, 
+  date_valid d1 -> date_valid d0 -> returns (Model.Date.years_since d1 d0).
+Proof. exact years_since_total. Qed.
+Print Assumptions C15_years_since_total.
+Theorem C15_month_num_days_total : forall m y, 
+  1 <= m <= 12 -> in_i32 y = true -> returns (Model.DateExtra.month_num_days m y).
+Proof. exact month_num_days_total. Qed.
+Print Assumptions C15_month_num_days_total.
+Theorem C15_ndt_months_total : forall a n, 
+  date_valid (Model.DateTime.nd_date a) -> in_u32 n = true ->
+  returns (Model.DateTime.ndt_checked_add_months a n) /\ returns (Model.DateTime.ndt_checked_sub_months a n).
+Proof. exact ndt_months_total. Qed.
+Print Assumptions C15_ndt_months_total.
+
+(** ** Field resolution (C14).  C14 states its absence-of-traps theorems modulo three ISO-week facts about Model/Date.v; they are discharged here from C01's theorems (C01_iso_week, C01_from_isoywd_opt, C01_iso_form), so the statements below are unconditional *)
+Theorem C15_fact_iso_week_total : 
+  Proofs.C14Date.Fact_iso_week_total.
+Proof. exact fact_iso_week_total. Qed.
+Print Assumptions C15_fact_iso_week_total.
+Theorem C15_fact_isoywd_total : 
+  Proofs.C14Date.Fact_isoywd_total.
+Proof. exact fact_isoywd_total. Qed.
+Print Assumptions C15_fact_isoywd_total.
+Theorem C15_fact_isoywd_roundtrip : 
+  Proofs.C14Date.Fact_isoywd_roundtrip.
+Proof. exact fact_isoywd_roundtrip. Qed.
+Print Assumptions C15_fact_isoywd_roundtrip.
+(* all 22 set_* methods, every i64 argument *)
+Theorem C15_parsed_setters_total : forall k p v r, 
+  Model.Parsed.apply_setter k p v = Some r -> r <> Panic /\ r <> OutOfFuel.
+Proof. exact parsed_setters_total. Qed.
+Print Assumptions C15_parsed_setters_total.
+(* every field state the setters can produce (typed); a returned date is valid *)
+Theorem C15_to_naive_date_total : forall p, 
+  Proofs.C14.typed p ->
+  returns (Model.Parsed.to_naive_date p) /\ forall d, Model.Parsed.to_naive_date p = Val (Model.Parsed.Ok d) -> date_valid d.
+Proof. exact to_naive_date_total. Qed.
+Print Assumptions C15_to_naive_date_total.
+Theorem C15_to_naive_time_total : forall p, 
+  Proofs.C14.u32v (Model.Parsed.p_hour_div_12 p) -> Proofs.C14.u32v (Model.Parsed.p_hour_mod_12 p) -> Proofs.C14.u32v (Model.Parsed.p_minute p) ->
+  Proofs.C14.u32v (Model.Parsed.p_second p) -> Proofs.C14.u32v (Model.Parsed.p_nanosecond p) ->
+  returns (Model.Parsed.to_naive_time p).
+Proof. exact to_naive_time_total. Qed.
+Print Assumptions C15_to_naive_time_total.
+(* every i32 offset; includes the minimum timestamp with second 60 (dd0e5ce); to_datetime / to_datetime_with_timezone go through it (correspondence + judge for their last step) *)
+Theorem C15_to_naive_datetime_with_offset_total : forall p off, 
+  Proofs.C14.typed p -> in_i32 off = true ->
+  returns (Model.Parsed.to_naive_datetime_with_offset p off).
+Proof. exact to_naive_datetime_with_offset_total. Qed.
+Print Assumptions C15_to_naive_datetime_with_offset_total.
+
+(** ** Weekday / Month conversions and FromStr (C19) *)
+(* all thirteen FromPrimitive / TryFrom conversions are plain functions in the model: a returned value is a Weekday / Month *)
+Theorem C15_weekday_month_conversions : forall n, 
+  (forall r, In r (Proofs.C19.wd_from_all n) -> match r with Some w => Proofs.C19.wd w | None => True end) /\
+  (forall r, In r (Proofs.C19.mo_from_all n) -> match r with Some m => Proofs.C19.mo m | None => True end).
+Proof. exact weekday_month_conversions. Qed.
+Print Assumptions C15_weekday_month_conversions.
+Theorem C15_weekday_month_from_str_total : forall s, 
+  Forall Proofs.C19.byte s -> Model.ScanNames.utf8_valid s = true ->
+  returns (Model.C19.wd_from_str s) /\ returns (Model.C19.mo_from_str s).
+Proof. exact weekday_month_from_str_total. Qed.
+Print Assumptions C15_weekday_month_from_str_total.
+
+(** ** Parsers *)
+(* every well-formed UTF-8 string (C10) *)
+Theorem C15_parse_from_rfc3339_total : forall s, 
+  Base.Utf8.utf8_valid s = true -> returns (Model.Rfc3339.parse_from_rfc3339 s).
 Proof. exact parse_from_rfc3339_total. Qed.
 Print Assumptions C15_parse_from_rfc3339_total.
+(* format::parse / parse_and_remainder with an explicit item list (C13).  PARTIAL: item lists without Fixed::RFC2822 (C11 owns that reader: C11_comment_total, C11_zone_scanner_total, C11_no_panic_on_grammar_partial; otherwise correspondence + judge) *)
+Theorem C15_parse_items_total_partial : forall items p s, 
+  forallb Proofs.C13Safe.item_ok items = true -> Base.Utf8.utf8_valid s = true ->
+  returns (Model.Parse.parse p s items) /\ returns (Model.Parse.parse_and_remainder p s items).
+Proof. exact parse_items_total. Qed.
+Print Assumptions C15_parse_items_total_partial.
 
-(** ** Format-string items: iteration ends (the fuel of the drain, 16*len+32 calls, is never exhausted)
-    after at most 13 items per input byte; strict mode on the repaired code (SF_ERROR_CONSUMES is read
-    from src/format/strftime.rs by the translator: d664290), lenient mode always *)
-Theorem C15_strftime_items_bounded : forall s lenient, Gen.Strftime.SF_ERROR_CONSUMES = true \/ lenient = true ->
+(** ** The RFC 3339 renderers (C10 writer domain) *)
+(* PARTIAL: whole-minute offsets, wall-clock year 0..9999, leap-second field only on second 59; elsewhere (both range ends seen through an offset: the repaired defect) correspondence + judge *)
+Theorem C15_to_rfc3339_opts_total_partial : forall y o secs frac off sf uz a, 
+  Model.DateTime.dec_dtz (Proofs.C10Main.value y o secs frac off) = Some a -> Proofs.C10Main.writer_domain y o secs frac off sf ->
+  returns (Model.Rfc3339.to_rfc3339_opts a sf uz).
+Proof. exact to_rfc3339_opts_total_partial. Qed.
+Print Assumptions C15_to_rfc3339_opts_total_partial.
+
+(** ** The format-string iterator NEVER TRAPS (dedicated proof, Proofs/C15Strftime.v: every slice of strftime.rs is taken at a character boundary of the well-formed input, the index arithmetic stays in usize, assert!(nextspec > 0) holds), strict or lenient, with or without the repair of error(); with C12's termination theorem: it yields a finite item list of at most 13 items per byte, and StrftimeItems::parse / parse_to_owned / count return *)
+Theorem C15_strftime_never_panics : forall s lenient fuel, 
+  valid s = true -> blen s <= u64_max ->
+  sf_take fuel (mk_sfi s [] lenient) [] <> Panic.
+Proof. exact strftime_never_panics. Qed.
+Print Assumptions C15_strftime_never_panics.
+Theorem C15_strftime_items_total : forall s lenient, 
+  Model.Strftime.utf8_valid s = true -> Z.of_nat (List.length s) <= u64_max ->
+  Gen.Strftime.SF_ERROR_CONSUMES = true \/ lenient = true ->
+  exists l, Model.C15.sf_items s lenient = Val (Some l) /\ Z.of_nat (List.length l) <= 13 * Z.of_nat (List.length s).
+Proof. exact strftime_items_total. Qed.
+Print Assumptions C15_strftime_items_total.
+Theorem C15_strftime_parse_total : forall s lenient, 
+  Model.Strftime.utf8_valid s = true -> Z.of_nat (List.length s) <= u64_max ->
+  Gen.Strftime.SF_ERROR_CONSUMES = true \/ lenient = true ->
+  Model.C15.sf_parse s lenient <> VPanic /\ Model.C15.sf_parse s lenient <> VFuel /\
+  exists n, Model.C15.item_count s lenient = VInt n /\ 0 <= n <= 13 * Z.of_nat (List.length s).
+Proof. exact strftime_parse_total. Qed.
+Print Assumptions C15_strftime_parse_total.
+
+(** ** Format-string items: iteration ends (the fuel of the drain, 16*len+32 calls, is never exhausted) after at most 13 items per input byte; strict mode on the repaired code (SF_ERROR_CONSUMES is read from src/format/strftime.rs by the translator: d664290), lenient mode always *)
+Theorem C15_strftime_items_bounded : forall s lenient, 
+  Gen.Strftime.SF_ERROR_CONSUMES = true \/ lenient = true ->
   Model.C15.sf_items s lenient <> OutOfFuel /\ Model.C15.sf_items s lenient <> Val None /\
   forall l, Model.C15.sf_items s lenient = Val (Some l) -> Z.of_nat (List.length l) <= 13 * Z.of_nat (List.length s).
 Proof. exact strftime_items_bounded. Qed.
 Print Assumptions C15_strftime_items_bounded.
-Theorem C15_item_count_bounded : forall s lenient, Gen.Strftime.SF_ERROR_CONSUMES = true \/ lenient = true ->
+Theorem C15_item_count_bounded : forall s lenient, 
+  Gen.Strftime.SF_ERROR_CONSUMES = true \/ lenient = true ->
   Model.C15.item_count s lenient <> VFuel /\
   forall n, Model.C15.item_count s lenient = VInt n -> n <= 13 * Z.of_nat (List.length s).
 Proof. exact item_count_bounded. Qed.
 Print Assumptions C15_item_count_bounded.
-Theorem C15_strftime_parse_ends : forall s lenient, Gen.Strftime.SF_ERROR_CONSUMES = true \/ lenient = true ->
+(* StrftimeItems::parse / parse_to_owned *)
+Theorem C15_strftime_parse_ends : forall s lenient, 
+  Gen.Strftime.SF_ERROR_CONSUMES = true \/ lenient = true ->
   Model.C15.sf_parse s lenient <> VFuel.
 Proof. exact sf_parse_no_fuel. Qed.
 Print Assumptions C15_strftime_parse_ends.
 
+(** ** the hypotheses are inhabited *)
 Example C15_hypotheses_inhabited :
   date_valid (Model.Date.D_MAX) /\ Gen.Strftime.SF_ERROR_CONSUMES = true /\
   Model.C15.item_count (B"%c%c") false = VInt 26 /\ Model.C15.sf_parse (B"%Q") false = VErr B"BadFormat".
 Proof. exact hypotheses_inhabited. Qed.
 Print Assumptions C15_hypotheses_inhabited.
+
+(** ** Inventory of the public fallible entry points (gen/C15_inventory.json) by kind of no-panic evidence
+
+   THEOREM of this file:
+     C15_and_hms_total
+       NaiveDate::and_hms_opt; NaiveDate::and_hms_milli_opt; NaiveDate::and_hms_micro_opt;
+       NaiveDate::and_hms_nano_opt;
+     C15_date_days_total
+       NaiveDate::checked_add_days; NaiveDate::checked_sub_days;
+     C15_date_months_total
+       NaiveDate::checked_add_months; NaiveDate::checked_sub_months;
+     C15_date_signed_total
+       NaiveDate::checked_add_signed; NaiveDate::checked_sub_signed;
+     C15_date_with_total
+       <NaiveDate as Datelike>::with_year; <NaiveDate as Datelike>::with_month;
+       <NaiveDate as Datelike>::with_month0; <NaiveDate as Datelike>::with_day;
+       <NaiveDate as Datelike>::with_day0; <NaiveDate as Datelike>::with_ordinal;
+       <NaiveDate as Datelike>::with_ordinal0;
+     C15_dtz_with_time_field_total
+       <DateTime<Tz> as Timelike>::with_hour; <DateTime<Tz> as Timelike>::with_minute;
+       <DateTime<Tz> as Timelike>::with_second; <DateTime<Tz> as Timelike>::with_nanosecond;
+     C15_fixed_offset_ctor_total
+       FixedOffset::east_opt; FixedOffset::west_opt;
+     C15_from_isoywd_opt_total
+       NaiveDate::from_isoywd_opt;
+     C15_from_local_datetime_total
+       NaiveDateTime::and_local_timezone; TimeZone::from_local_datetime;
+     C15_from_num_days_from_ce_opt_total
+       NaiveDate::from_num_days_from_ce_opt;
+     C15_from_timestamp_micros_total
+       DateTime<Utc>::from_timestamp_micros;
+     C15_from_timestamp_millis_total
+       DateTime<Utc>::from_timestamp_millis;
+     C15_from_timestamp_total
+       DateTime<Utc>::from_timestamp;
+     C15_from_weekday_of_month_opt_total
+       NaiveDate::from_weekday_of_month_opt;
+     C15_from_ymd_opt_total
+       NaiveDate::from_ymd_opt;
+     C15_from_yo_opt_total
+       NaiveDate::from_yo_opt;
+     C15_month_num_days_total
+       Month::num_days;
+     C15_ndt_months_total
+       NaiveDateTime::checked_add_months; NaiveDateTime::checked_sub_months;
+     C15_ndt_offset_total
+       NaiveDateTime::checked_add_offset; NaiveDateTime::checked_sub_offset;
+     C15_ndt_with_time_total
+       <NaiveDateTime as Timelike>::with_hour; <NaiveDateTime as Timelike>::with_minute;
+       <NaiveDateTime as Timelike>::with_second; <NaiveDateTime as Timelike>::with_nanosecond;
+     C15_parse_from_rfc3339_total
+       DateTime<FixedOffset>::parse_from_rfc3339;
+     C15_parsed_setters_total
+       Parsed::set_year; Parsed::set_year_div_100; Parsed::set_year_mod_100; Parsed::set_isoyear;
+       Parsed::set_isoyear_div_100; Parsed::set_isoyear_mod_100; Parsed::set_quarter; Parsed::set_month;
+       Parsed::set_week_from_sun; Parsed::set_week_from_mon; Parsed::set_isoweek; Parsed::set_weekday;
+       Parsed::set_ordinal; Parsed::set_day; Parsed::set_ampm; Parsed::set_hour12; Parsed::set_hour;
+       Parsed::set_minute; Parsed::set_second; Parsed::set_nanosecond; Parsed::set_timestamp; Parsed::set_offset;
+     C15_strftime_parse_total
+       StrftimeItems<'a>::parse; StrftimeItems<'a>::parse_to_owned;
+     C15_succ_pred_total
+       NaiveDate::succ_opt; NaiveDate::pred_opt;
+     C15_td_add_total
+       TimeDelta::checked_add;
+     C15_td_ctor_valid
+       TimeDelta::new; TimeDelta::try_weeks; TimeDelta::try_days; TimeDelta::try_hours; TimeDelta::try_minutes;
+       TimeDelta::try_seconds;
+     C15_td_display_total
+       <TimeDelta as fmt::Display>::fmt;
+     C15_td_div_total
+       TimeDelta::checked_div;
+     C15_td_millis_total
+       TimeDelta::try_milliseconds;
+     C15_td_mul_total
+       TimeDelta::checked_mul;
+     C15_td_sub_total
+       TimeDelta::checked_sub;
+     C15_time_ctor_total
+       NaiveTime::from_hms_opt; NaiveTime::from_hms_milli_opt; NaiveTime::from_hms_micro_opt;
+       NaiveTime::from_hms_nano_opt;
+     C15_to_naive_date_total
+       Parsed::to_naive_date;
+     C15_to_naive_datetime_with_offset_total
+       Parsed::to_naive_datetime_with_offset;
+     C15_to_naive_time_total
+       Parsed::to_naive_time;
+     C15_tz_timestamp_total
+       TimeZone::timestamp_opt; TimeZone::timestamp_millis_opt; TimeZone::timestamp_micros;
+     C15_week_total
+       NaiveWeek::checked_first_day; NaiveWeek::checked_last_day; NaiveWeek::checked_days;
+     C15_weekday_month_conversions
+       <Month as TryFrom<u8>>::try_from; <Month as num_traits::FromPrimitive>::from_u64;
+       <Month as num_traits::FromPrimitive>::from_i64; <Month as num_traits::FromPrimitive>::from_u32;
+       <Weekday as TryFrom<u8>>::try_from; <Weekday as num_traits::FromPrimitive>::from_i64;
+       <Weekday as num_traits::FromPrimitive>::from_u64;
+     C15_weekday_month_from_str_total
+       <Weekday as FromStr>::from_str; <Month as FromStr>::from_str;
+     C15_with_time_total
+       DateTime<Tz>::with_time;
+     C15_with_ymd_and_hms_total
+       TimeZone::with_ymd_and_hms;
+     C15_years_since_total
+       NaiveDate::years_since;
+
+   PARTIAL theorem of this file (sub-domain stated at the theorem):
+     C15_dtz_days_partial
+       DateTime<Tz>::checked_add_days; DateTime<Tz>::checked_sub_days;
+     C15_dtz_months_partial
+       DateTime<Tz>::checked_add_months; DateTime<Tz>::checked_sub_months;
+     C15_dtz_signed_total_partial
+       DateTime<Tz>::checked_add_signed; DateTime<Tz>::checked_sub_signed;
+     C15_dtz_with_date_field_partial
+       <DateTime<Tz> as Datelike>::with_year; <DateTime<Tz> as Datelike>::with_month;
+       <DateTime<Tz> as Datelike>::with_month0; <DateTime<Tz> as Datelike>::with_day;
+       <DateTime<Tz> as Datelike>::with_day0; <DateTime<Tz> as Datelike>::with_ordinal;
+       <DateTime<Tz> as Datelike>::with_ordinal0;
+     C15_ndt_days_total_partial
+       NaiveDateTime::checked_add_days; NaiveDateTime::checked_sub_days;
+     C15_ndt_signed_total_partial
+       NaiveDateTime::checked_add_signed; NaiveDateTime::checked_sub_signed;
+     C15_parse_items_total_partial
+       parse::parse; parse::parse_and_remainder;
+     C15_timestamp_nanos_opt_total_partial
+       DateTime<Tz>::timestamp_nanos_opt;
+     C15_to_rfc3339_opts_total_partial
+       DateTime<Tz>::to_rfc3339_opts;
+
+   OWNER's theorem states [= Val ...] for all typed arguments (not restated here):
+     owner: C06_from_std
+       TimeDelta::from_std; TimeDelta::to_std;
+     owner: C06_num_microseconds
+       TimeDelta::num_microseconds; TimeDelta::num_nanoseconds;
+     owner: C07_ctor_accept_iff_secs
+       NaiveTime::from_num_seconds_from_midnight_opt;
+     owner: C07_replace_exact_hour
+       <NaiveTime as Timelike>::with_hour; <NaiveTime as Timelike>::with_minute;
+       <NaiveTime as Timelike>::with_second; <NaiveTime as Timelike>::with_nanosecond;
+     owner: C08_dt_years_since
+       DateTime<Tz>::years_since;
+     owner: C08_ndt_with
+       <NaiveDateTime as Datelike>::with_year; <NaiveDateTime as Datelike>::with_month;
+       <NaiveDateTime as Datelike>::with_month0; <NaiveDateTime as Datelike>::with_day;
+       <NaiveDateTime as Datelike>::with_day0; <NaiveDateTime as Datelike>::with_ordinal;
+       <NaiveDateTime as Datelike>::with_ordinal0;
+     owner: C19_members
+       WeekdaySet::single_day; WeekdaySet::first; WeekdaySet::last;
+
+   correspondence + judge ONLY:
+     none: C11_comment_total, C11_zone_scanner_total, C11_no_panic_on_grammar_partial are partial
+       DateTime<FixedOffset>::parse_from_rfc2822;
+     none: C12_format_spec covers the documented family; C15_strftime_never_panics covers the item iterator; formatting of arbitrary items: correspondence + judge
+       DelayedFormat<I>::write_to; <DelayedFormat<I> as Display>::fmt;
+     none: C17 theorems are conditional on links to C03 (modulo_add_exact); correspondence + judge
+       <DateTime<Tz> as DurationRound>::duration_round; <DateTime<Tz> as DurationRound>::duration_trunc;
+       <DateTime<Tz> as DurationRound>::duration_round_up; <NaiveDateTime as DurationRound>::duration_round;
+       <NaiveDateTime as DurationRound>::duration_trunc; <NaiveDateTime as DurationRound>::duration_round_up;
+     none: constant (returns Single(self)); no trapping step in the model
+       <FixedOffset as TimeZone>::offset_from_local_date; <FixedOffset as TimeZone>::offset_from_local_datetime;
+       <Utc as TimeZone>::offset_from_local_date; <Utc as TimeZone>::offset_from_local_datetime;
+     none: correspondence + judge
+       <DateTime<Tz> as fmt::Debug>::fmt; <DateTime<Tz> as fmt::Display>::fmt; <NaiveDate as fmt::Debug>::fmt;
+       <NaiveDate as fmt::Display>::fmt; <NaiveDateTime as fmt::Debug>::fmt;
+       <NaiveDateTime as fmt::Display>::fmt; <NaiveTime as fmt::Debug>::fmt; <NaiveTime as fmt::Display>::fmt;
+       <FixedOffset as fmt::Debug>::fmt; <FixedOffset as fmt::Display>::fmt; <Utc as fmt::Debug>::fmt;
+       <Utc as fmt::Display>::fmt; <Weekday as fmt::Display>::fmt; <WeekdaySet as Debug>::fmt;
+       <WeekdaySet as fmt::Display>::fmt;
+     none: field getters
+       Parsed::year; Parsed::year_div_100; Parsed::year_mod_100; Parsed::isoyear; Parsed::isoyear_div_100;
+       Parsed::isoyear_mod_100; Parsed::quarter; Parsed::month; Parsed::week_from_sun; Parsed::week_from_mon;
+       Parsed::isoweek; Parsed::weekday; Parsed::ordinal; Parsed::day; Parsed::hour_div_12; Parsed::hour_mod_12;
+       Parsed::minute; Parsed::second; Parsed::nanosecond; Parsed::timestamp; Parsed::offset;
+     none: outside C15 stream
+       <DateTime<Tz> as ser::Serialize>::serialize; <DateTime<FixedOffset> as de::Deserialize<'de>>::deserialize;
+       <DateTime<Utc> as de::Deserialize<'de>>::deserialize; serde::ts_nanoseconds::serialize#1;
+       serde::ts_nanoseconds::deserialize#1; serde::ts_nanoseconds_option::serialize#1;
+       serde::ts_nanoseconds_option::deserialize#1; serde::ts_microseconds::serialize#1;
+       serde::ts_microseconds::deserialize#1; serde::ts_microseconds_option::serialize#1;
+       serde::ts_microseconds_option::deserialize#1; serde::ts_milliseconds::serialize#1;
+       serde::ts_milliseconds::deserialize#1; serde::ts_milliseconds_option::serialize#1;
+       serde::ts_milliseconds_option::deserialize#1; serde::ts_seconds::serialize#1;
+       serde::ts_seconds::deserialize#1; serde::ts_seconds_option::serialize#1;
+       serde::ts_seconds_option::deserialize#1; <ParseError as fmt::Display>::fmt;
+       <OutOfRange as fmt::Display>::fmt; <OutOfRange as fmt::Debug>::fmt;
+       <ParseMonthError as fmt::Display>::fmt; <ParseMonthError as fmt::Debug>::fmt;
+       <Month as ser::Serialize>::serialize; <Month as de::Deserialize<'de>>::deserialize;
+       <NaiveDate as ser::Serialize>::serialize; <NaiveDate as de::Deserialize<'de>>::deserialize;
+       <NaiveDateTime as ser::Serialize>::serialize; <NaiveDateTime as de::Deserialize<'de>>::deserialize;
+       serde::ts_nanoseconds::serialize#2; serde::ts_nanoseconds::deserialize#2;
+       serde::ts_nanoseconds_option::serialize#2; serde::ts_nanoseconds_option::deserialize#2;
+       serde::ts_microseconds::serialize#2; serde::ts_microseconds::deserialize#2;
+       serde::ts_microseconds_option::serialize#2; serde::ts_microseconds_option::deserialize#2;
+       serde::ts_milliseconds::serialize#2; serde::ts_milliseconds::deserialize#2;
+       serde::ts_milliseconds_option::serialize#2; serde::ts_milliseconds_option::deserialize#2;
+       serde::ts_seconds::serialize#2; serde::ts_seconds::deserialize#2; serde::ts_seconds_option::serialize#2;
+       serde::ts_seconds_option::deserialize#2; <IsoWeek as fmt::Debug>::fmt;
+       <NaiveTime as ser::Serialize>::serialize; <NaiveTime as de::Deserialize<'de>>::deserialize;
+       <RoundingError as fmt::Display>::fmt; <OutOfRangeError as fmt::Display>::fmt;
+       <TimeDelta as Serialize>::serialize; <TimeDelta as Deserialize<'de>>::deserialize;
+       <ParseWeekdayError as fmt::Display>::fmt; <ParseWeekdayError as fmt::Debug>::fmt;
+       <Weekday as ser::Serialize>::serialize; <Weekday as de::Deserialize<'de>>::deserialize;
+     none: owner lemma Proofs/C10Writer.v to_rfc3339_ok (writer domain); correspondence + judge
+       DateTime<Tz>::to_rfc3339;
+     none: partial -- C13_rfc3339_relaxed_never_panics (owner), resolution step by correspondence + judge
+       <DateTime<Utc> as str::FromStr>::from_str; <DateTime<FixedOffset> as str::FromStr>::from_str;
+     none: partial -- C13_timezone_offset_never_panics (owner); correspondence + judge
+       <FixedOffset as FromStr>::from_str;
+     none: partial -- C15_parse_items_total_partial (fixed item lists), resolution by C15_to_naive_date_total / C15_to_naive_time_total; composition: correspondence + judge
+       <NaiveDate as str::FromStr>::from_str; <NaiveDateTime as str::FromStr>::from_str;
+       <NaiveTime as str::FromStr>::from_str;
+     none: partial -- C15_strftime_never_panics (item iterator) and C15_parse_items_total_partial (item reader); their lazy composition and the resolution step: correspondence + judge
+       DateTime<FixedOffset>::parse_from_str; DateTime<FixedOffset>::parse_and_remainder;
+       NaiveDate::parse_from_str; NaiveDate::parse_and_remainder; NaiveDateTime::parse_from_str;
+       NaiveDateTime::parse_and_remainder; NaiveTime::parse_from_str; NaiveTime::parse_and_remainder;
+     none: partial -- goes through C15_to_naive_datetime_with_offset_total; the final zone step: correspondence + judge
+       Parsed::to_fixed_offset; Parsed::to_datetime; Parsed::to_datetime_with_timezone;
+     none: pattern match only; no trapping step in the model
+       MappedLocalTime<T>::single; MappedLocalTime<T>::earliest; MappedLocalTime<T>::latest;
+
+*)
